@@ -5,7 +5,7 @@ use proptest::prelude::*;
 use num_traits::Zero as _;
 use serde::{Deserialize, Serialize};
 use std::collections::{BTreeMap, HashMap};
-use yui::poly::Poly;
+use yui::poly::{Mono, Poly};
 use yui::FF2;
 use yui_homology::{ChainComplexTrait, GridTrait, SummandTrait};
 use yui_kh::kh::KhComplex;
@@ -16,6 +16,7 @@ use yui_link::InvLink;
 use crate::engine::*;
 use crate::ensure;
 use crate::kit::cube::*;
+use crate::kit::cube::Sym;
 use crate::kit::diagram::*;
 use crate::kit::local::{self, SpRows};
 use crate::kit::pools::with_threads;
@@ -115,6 +116,33 @@ impl Cone {
         if let Some(tv) = self.tau.get(&i) { for (k, c2) in &pi { flip(&mut rows, cip.len() + *c2, *c2); if let Some(tk) = pi.get(&tv[*k]) { flip(&mut rows, cip.len() + *tk, *c2); } } }
         (ncols, rows)
     }
+    /// the cone over F2[H]/(H^k) (t = 0) as an F2 matrix: every generator g is expanded into g, gH, .., gH^(k-1);
+    /// rows as lists of columns (duplicates cancel in pairs)
+    fn d_trunc(&self, i: isize, k: usize) -> (usize, Vec<Vec<usize>>) {
+        let c = &self.cube;
+        let (ni, nim, nip) = (c.rank(i), c.rank(i - 1), c.rank(i + 1));
+        let ncols = (ni + nim) * k;
+        let mut rows: Vec<Vec<usize>> = vec![vec![]; (nip + ni) * k];
+        let mut put = |blk_r: usize, r: usize, blk_c: usize, cc: usize, sym: Sym| {
+            for a in 0..k {
+                let ar = match sym { Sym::One => a, Sym::H => a + 1, Sym::T => usize::MAX };
+                if ar >= k { continue }
+                rows[(blk_r + r) * k + ar].push((blk_c + cc) * k + a);
+            }
+        };
+        if let Some(es) = c.d.get(&i) { for (r, cc, _, sym) in es { put(0, *r, 0, *cc, *sym); } }
+        if let Some(es) = c.d.get(&(i - 1)) { for (r, cc, _, sym) in es { put(nip, *r, ni, *cc, *sym); } }
+        if let Some(tv) = self.tau.get(&i) { for x in 0..ni { put(nip, x, 0, x, Sym::One); put(nip, tv[x], 0, x, Sym::One); } }
+        (ncols, rows)
+    }
+    /// dim_F2 H^i(Cone (x) F2[H]/(H^k))
+    fn dims_trunc(&self, k: usize) -> BTreeMap<isize, usize> {
+        let degs = self.cube.degrees();
+        let lo = *degs.first().unwrap(); let hi = *degs.last().unwrap() + 1;
+        let mut rk: BTreeMap<isize, (usize, usize)> = BTreeMap::new();
+        for i in lo..=hi { let (n, rows) = self.d_trunc(i, k); rk.insert(i, (n, local::rank_f2(&rows, n))); }
+        (lo..=hi).map(|i| (i, rk[&i].0 - rk[&i].1 - rk.get(&(i - 1)).map(|x| x.1).unwrap_or(0))).filter(|x| x.1 > 0).collect()
+    }
     /// tau d = d tau (self-check of the oracle)
     fn check_equivariance(&self, h: &BigInt, t: &BigInt) -> Result<(), String> {
         for i in self.cube.degrees() {
@@ -180,18 +208,29 @@ fn run_case(c: &Case) -> Chk<Pass> {
             pass = pass.nt((h, t) != (false, false) || c.mirror || c.reorder.is_some() || kinked);
         }
         Mode::ConeF2H => {
-            // over F2[H]: rank = dim at H = 1; rank + #tors_i + #tors_{i+1} = dim at H = 0
-            let tab: BTreeMap<isize, (usize, usize)> = lib!({ let hm = KhIHomology::<Poly<'H', FF2>>::new(&l, &Poly::variable(), &Poly::zero(), reduced);
-                hm.h_range().map(|i| (i, (hm[i].rank(), hm[i].tors().len()))).collect() });
-            let (d1, d0) = (cone.dims(&BigInt::from(1), &BigInt::from(0), None), cone.dims(&BigInt::from(0), &BigInt::from(0), None));
-            let degs: std::collections::BTreeSet<isize> = tab.keys().chain(d1.keys()).chain(d0.keys()).cloned().collect();
-            for i in degs {
-                let (r, tn) = tab.get(&i).cloned().unwrap_or((0, 0));
-                let tnext = tab.get(&(i + 1)).map(|x| x.1).unwrap_or(0);
-                ensure!(r == d1.get(&i).cloned().unwrap_or(0), "{what}: degree {i}: rank over F2[H] = {r}, dimension of the cone at H = 1 is {}", d1.get(&i).cloned().unwrap_or(0));
-                ensure!(r + tn + tnext == d0.get(&i).cloned().unwrap_or(0), "{what}: degree {i}: rank + #torsion(i) + #torsion(i+1) = {}, dimension of the cone at H = 0 is {}", r + tn + tnext, d0.get(&i).cloned().unwrap_or(0));
+            // over F2[H] (graded, so every torsion order is a power of H): with r_i = rank, e_j^(i) = exponents in degree i,
+            // dim_F2 H^i(Cone (x) F2[H]/(H^k)) = k r_i + sum_j min(e_j^(i), k) + sum_j min(e_j^(i+1), k) for every k >= 1;
+            // compared for k = 1 .. (largest reported exponent + 1), which determines the exponents; plus rank = dim at H = 1
+            let tab: BTreeMap<isize, (usize, Vec<Option<usize>>)> = lib!({ let hm = KhIHomology::<Poly<'H', FF2>>::new(&l, &Poly::variable(), &Poly::zero(), reduced);
+                hm.h_range().map(|i| (i, (hm[i].rank(), hm[i].tors().iter().map(|p| if p.iter().count() == 1 { p.iter().next().map(|(x, _)| x.deg() as usize) } else { None }).collect()))).collect() });
+            for (i, (_, ts)) in &tab { ensure!(ts.iter().all(|e| matches!(e, Some(x) if *x >= 1)), "{what}: degree {i}: a torsion order over F2[H] is not a positive power of H (exponents read: {:?})", ts); }
+            let exps: BTreeMap<isize, Vec<usize>> = tab.iter().map(|(i, (_, ts))| (*i, ts.iter().map(|e| e.unwrap()).collect())).collect();
+            let emax = exps.values().flat_map(|v| v.iter().cloned()).max().unwrap_or(0);
+            let d1 = cone.dims(&BigInt::from(1), &BigInt::from(0), None);
+            let kmax = if cone.cube.total_gens() * (emax + 1) <= 80_000 { emax + 1 } else { 1 };
+            let tmin = |i: isize, k: usize| -> usize { exps.get(&i).map(|v| v.iter().map(|e| (*e).min(k)).sum()).unwrap_or(0) };
+            for k in 1..=kmax {
+                let dk = if k == 1 { cone.dims(&BigInt::from(0), &BigInt::from(0), None) } else { cone.dims_trunc(k) };
+                let degs: std::collections::BTreeSet<isize> = tab.keys().chain(d1.keys()).chain(dk.keys()).cloned().collect();
+                for i in degs {
+                    let r = tab.get(&i).map(|x| x.0).unwrap_or(0);
+                    if k == 1 { ensure!(r == d1.get(&i).cloned().unwrap_or(0), "{what}: degree {i}: rank over F2[H] = {r}, dimension of the cone at H = 1 is {}", d1.get(&i).cloned().unwrap_or(0)); }
+                    let want = dk.get(&i).cloned().unwrap_or(0);
+                    let got = k * r + tmin(i, k) + tmin(i + 1, k);
+                    ensure!(got == want, "{what}: degree {i}: rank {r}, H-torsion exponents {:?} (degree {i}) and {:?} (degree {}) predict dim H^{i}(. (x) F2[H]/H^{k}) = {got}, the cone of 1 + tau has {want}", exps.get(&i).cloned().unwrap_or_default(), exps.get(&(i + 1)).cloned().unwrap_or_default(), i + 1);
+                }
             }
-            pass = pass.nt(true);
+            pass = pass.nt(true).label_if(kmax > 1, "H-torsion-exponents-compared").label_if(emax >= 2, "H-torsion-exponent>=2");
         }
         Mode::SymKh => {
             // the symmetric construction without the involutive part is ordinary Khovanov homology
@@ -231,12 +270,12 @@ impl Prop for C19 {
     fn rule() -> String {
         "case = (one of the 23 built-in strongly invertible diagrams, optionally changed by up to 3 generated equivariant Reidemeister I moves (a kink on an on-axis edge, or a kink on an off-axis edge together with its image kink; explicit edge involution passed to InvLink::new; at most 10 crossings quick, 11 thorough), optionally mirrored, optionally with its crossings listed in a generated order (same symmetric numbering), (h,t) in F2^2 or h = H over F2[H], reduced (t = 0), threads, mode). \
          ConeF2 / ConeF2Bigraded: KhIComplex over F2 satisfies d.d = 0 and its homology dimensions per degree (per bidegree for h = t = 0) equal those of the harness's own cone d(Bx) = B dx + Q(x + tau x), d(Qx) = Q dx on its own cube, with tau induced by the edge involution (e -> (n+1-e) mod n + 1 on the table diagrams, extended over the kinks; tau d = d tau is checked in the oracle); \
-         ConeF2H: over F2[H], rank = cone dimension at H = 1 and rank + #torsion(i) + #torsion(i+1) = cone dimension at H = 0; \
+         ConeF2H: over F2[H], every torsion order is a power of H, rank = cone dimension at H = 1, and for k = 1 .. (largest exponent + 1): k rank + sum min(e_j(i), k) + sum min(e_j(i+1), k) = dim_F2 of the homology of the cone over F2[H]/(H^k) (which determines the exponents; only k = 1 when the expanded cube exceeds 80 000 generators); \
          SymKh: SymTngBuilder::build_kh_complex homology == KhComplex of the underlying knot == the cube; \
          Ssi: ssi_invariants(H over F2[H]) independent of the crossing order, s0 <= s1, s0 = s1 mod 2, mirror gives (-s1,-s0). \
          non-trivial = (h,t) != (0,0), or mirrored, or reordered, or kinked (ConeF2H: always)".into()
     }
-    fn assumptions() -> Vec<String> { vec!["new strongly invertible diagrams are obtained from the built-in table by equivariant Reidemeister I moves, reordering and mirroring only (no equivariant R2/R3); invariance of the ssi pair under the kinks is not asserted (the property does not state it); exponents of H-torsion are not compared".into()] }
+    fn assumptions() -> Vec<String> { vec!["new strongly invertible diagrams are obtained from the built-in table by equivariant Reidemeister I moves, reordering and mirroring only (no equivariant R2/R3); invariance of the ssi pair under the kinks is not asserted (the property does not state it); ".into()] }
     fn strategy(tier: Tier) -> BoxedStrategy<Case> {
         let cap: u8 = tier.pick(10, 11);
         let mode = prop_oneof![4 => Just(Mode::ConeF2), 2 => Just(Mode::ConeF2Bigraded), 2 => Just(Mode::ConeF2H), 2 => Just(Mode::SymKh), 2 => Just(Mode::Ssi)];
